@@ -147,6 +147,27 @@ def restructure(rng, res):
     return done
 
 
+def empty_case(ctx, tmp, fmt):
+    """the smallest model: a resource without any root is saved and loaded as such"""
+    from pyecore.resources import ResourceSet, URI
+    from pyecore.resources.json import JsonResource
+    path = os.path.join(tmp, f'empty.{fmt}')
+    ctx.evaluations += 1
+    try:
+        rs = ResourceSet()
+        rs.resource_factory['json'] = lambda uri: JsonResource(uri)
+        rs.create_resource(URI(path)).save()
+        rs2 = ResourceSet()
+        rs2.resource_factory['json'] = lambda uri: JsonResource(uri)
+        n = len(rs2.get_resource(URI(path)).contents)
+    except Exception as e:
+        ctx.violate({'clause': 'roundtrip-raised', 'error': type(e).__name__, 'model': 'empty'},
+                    f'saving / loading a {fmt} resource without roots raised {type(e).__name__}: {str(e)[:80]}', {'case': 'empty', 'format': fmt})
+        return
+    if n:
+        ctx.violate({'clause': 'not-isomorphic', 'model': 'empty'}, f'a {fmt} resource without roots came back with {n} root(s)', {'case': 'empty', 'format': fmt})
+
+
 def resave_case(ctx, tag, h, tmp, fmt):
     """save, restructure the model in memory, save the same resource again, load: the second document describes the model
     as it is now (nothing computed for the first save may be reused when it no longer holds)"""
@@ -437,6 +458,7 @@ def run(ctx):
             run_case(ctx, h, tmp, 10 if ctx.quick() else 25)
         layer_correspondence(ctx, tmp)
         doc_layer(ctx, tmp)
+        empty_case(ctx, tmp, 'xmi')
         for h in range(80 if ctx.quick() else 1500):
             resave_case(ctx, 'C08', h, tmp, 'xmi')
     finally:
